@@ -714,5 +714,5 @@ func checkSecretFlows(c *engine.Ctx) {
 		}
 	}
 	c.Hold("repo>NewProxy-only-via-dispatcher", token.NoPos, len(p.RepoFuncs()), []string{fmt.Sprintf("%d direct WriteMsg(NewProxy) sites", nb)}, "registration messages leave only through the dispatcher")
-	c.Floor(loads, 25)
+	c.Floor(loads, 12)
 }
